@@ -70,12 +70,16 @@ package main
 // unrestricted NAT, `restrictedSnowflakes` holds none of those; members have a position, non-members have index -1
 // only after they were removed.
 //@ invariant BrokerContext(ctx) guard snowflakeLock: ctx.snowflakes != nil && ctx.restrictedSnowflakes != nil && ctx.snowflakes != ctx.restrictedSnowflakes && ctx.idToSnowflake != nil
-//@   protects O!broker.SnowflakeHeap, elems(*Snowflake), Snowflake.index, idToSnowflake, ghost Snowflake.inHeap
+//@   protects O!broker.SnowflakeHeap, elems(*Snowflake), Snowflake.index, idToSnowflake, ghost Snowflake.inHeap, monotone Snowflake.registered
 //@   clause {unrestricted-pool-holds-only-unrestricted} forall s *Snowflake :: s.inHeap == ctx.snowflakes ==> s.natType == NATUnrestricted
 //@   clause {other-pool-holds-no-unrestricted} forall s *Snowflake :: s.inHeap == ctx.restrictedSnowflakes ==> s.natType != NATUnrestricted
-//@   clause {members-have-a-position} forall s *Snowflake :: s.inHeap != nil ==> s.index != -1
+//@   clause {filed-in-one-of-the-two-pools} forall s *Snowflake :: s.inHeap != nil ==> s.inHeap == ctx.snowflakes || s.inHeap == ctx.restrictedSnowflakes
+//@   clause {members-have-a-position} forall s *Snowflake :: s.inHeap != nil ==> 0 <= s.index && s.index < len(*s.inHeap)
+//@   clause {positions-unique} forall s *Snowflake, t *Snowflake :: s.inHeap != nil && s.inHeap == t.inHeap && s.index == t.index ==> s == t
+//@   clause {removed-entries-have-index-minus-one} forall s *Snowflake :: s.registered && s.inHeap == nil ==> s.index == -1
 //@   clause {no-private-object-is-filed} forall s *Snowflake :: s.inHeap != nil ==> allocated(s)
 //
+//@ ghost field Snowflake.registered bool
 //@ ghost var poolLen int
 //
 // matchSnowflake: NAT compatibility table, refusal only when the eligible pool is empty, fewest clients first.
@@ -97,5 +101,16 @@ package main
 //@   props C03, C02
 //@   requires ctx != nil
 //@   flag nosafety paths
+//@   at call Push ghost snowflake.registered = true
+//@   ensures {registered} r.registered
 //@   ensures r != nil && fresh(r) && r.id == id && r.natType == natType && r.proxyType == proxyType && r.clients == clients
 //@   ensures {private-channels} fresh(r.offerChannel) && fresh(r.answerChannel) && r.offerChannel != r.answerChannel
+//
+// The per-poll goroutine started by Broker(): on timeout the entry is removed from the pool it was filed in
+// (iff it is still queued), unregistered, and the poll is answered.
+//@ func (ctx *BrokerContext) Broker$1(request *ProxyPoll)
+//@   props C03, C02, C04
+//@   flag concurrent paths nosafety lifetime=After paired-send=RequestOffer paired-recv=ClientOffers
+//@   requires ctx != nil && request != nil && snowflake != nil && snowflake.registered && snowflake.natType == request.natType && snowflake.id == request.id && request.offerChannel != nil
+//@   at call Remove assert {removed-from-the-pool-it-was-filed-in} held(&ctx.snowflakeLock) && ((request.natType == NATUnrestricted) <==> (unbox(arg0, *SnowflakeHeap) == ctx.snowflakes)) && unbox(arg0, *SnowflakeHeap) == snowflake.inHeap && arg1 == snowflake.index
+//@   ensures {answers-its-poll-exactly-once} sends(request.offerChannel) + closes(request.offerChannel) == old(sends(request.offerChannel)) + old(closes(request.offerChannel)) + 1
